@@ -65,7 +65,14 @@ def apply(state, op):
     kind = op["kind"]
     if kind in ("sync", "checkpoint", "opendb", "hold"):
         return "OK", state
-    if kind == "dbdestroy":        # op["clear"]: the state slots of the database (records, metadata)
+    if kind == "dbopen":           # iwkv_db(id, flags); op["fslot"]: the state slot holding the flags of an existing database
+        fl = dict(state[op["fslot"]])
+        if "00" in fl:
+            return ("OK" if fl["00"] == op["flags"] else "INCOMPAT"), state
+        st = list(state)
+        st[op["fslot"]] = (("00", op["flags"]),)
+        return "OK", tuple(st)
+    if kind == "dbdestroy":        # op["clear"]: the state slots of the database (records, metadata, flags)
         st = list(state)
         for d in op["clear"]:
             st[d] = ()
